@@ -235,13 +235,19 @@ impl SDJWTHolder {
             match (claim_to_disclose, sd_jwt_claims) {
                 (Value::Bool(true), Value::Object(sd_jwt_claims)) => {
                     if let Some(Value::String(digest)) = sd_jwt_claims.get(SD_LIST_PREFIX) {
-                        hash_to_disclosure
-                            .push(self.sd_jwt_engine.hash_to_disclosure[digest].to_owned());
+                        // the disclosure may be absent (decoy, or not received by this holder)
+                        if let Some(disclosure) = self.sd_jwt_engine.hash_to_disclosure.get(digest) {
+                            hash_to_disclosure.push(disclosure.to_owned());
+                        }
                     }
                 }
                 (claim_to_disclose, Value::Object(sd_jwt_claims)) => {
                     if let Some(Value::String(digest)) = sd_jwt_claims.get(SD_LIST_PREFIX) {
-                        let disclosure = self.sd_jwt_engine.hash_to_decoded_disclosure[digest]
+                        // the disclosure may be absent (decoy, or not received by this holder)
+                        let Some(decoded) = self.sd_jwt_engine.hash_to_decoded_disclosure.get(digest) else {
+                            continue;
+                        };
+                        let disclosure = decoded
                             .as_array()
                             .ok_or(Error::ConversionError("json array".to_string()))?;
                         match (claim_to_disclose, disclosure.get(1)) {
